@@ -709,13 +709,109 @@ fn treestall_model(cfg: Value, ext: PathBuf, work: PathBuf) -> impl Fn() + Sync 
     }
 }
 
+/// C08 under concurrency: a MERGING compaction (two level-0 files whose timestamps interleave, so
+/// neither may sink alone) runs while another thread ingests further files.  Afterwards every
+/// file the manifest lists must still be in sst/: the tree is closed and reopened (which fails
+/// when a listed file is gone) and every key is read back.
+fn treemerge_model(cfg: Value, template: PathBuf, ext: PathBuf, work: PathBuf) -> impl Fn() + Sync + Send + Clone + 'static {
+    move || {
+        let n = begin_execution();
+        let dir = work.join(format!("x{}", n % 4));
+        let _ = std::fs::remove_dir_all(&dir);
+        vcore::copy_dir(&template, &dir).expect("copy template");
+        sync42::verif::set_wait_list_slots(4);
+        lsmtk::verif::request_stop(false);
+        let tree = match LsmTree::open(options(&dir, &cfg["options"])) {
+            Ok(t) => Arc::new(t),
+            Err(e) => {
+                finding("open-error", format!("{e}"));
+                return;
+            }
+        };
+        let steps = cfg["compaction_steps"].as_u64().unwrap_or(1);
+        let compactor = {
+            let tree = Arc::clone(&tree);
+            loom::thread::spawn(move || {
+                for i in 0..steps {
+                    record(10, format!("compaction step #{i} start"));
+                    set_step_mode(StepMode::StepNoWait);
+                    if let Err(e) = tree.compaction_thread() {
+                        finding("op-error:compaction", format!("{e}"));
+                    }
+                    record(10, format!("compaction step #{i} done"));
+                }
+                set_step_mode(StepMode::Off);
+            })
+        };
+        let first = cfg["preloaded"].as_u64().unwrap_or(2);
+        let files = cfg["files"].as_u64().unwrap_or(3);
+        let ingester = {
+            let tree = Arc::clone(&tree);
+            let ext = ext.clone();
+            loom::thread::spawn(move || {
+                for i in first..files {
+                    record(1, format!("ingest #{i} call"));
+                    if let Err(e) = tree.ingest(ext.join(format!("{i}.sst"))) {
+                        finding("op-error:ingest", format!("{e}"));
+                    }
+                    record(1, format!("ingest #{i} ret"));
+                }
+            })
+        };
+        ingester.join().unwrap();
+        compactor.join().unwrap();
+        let shape: Vec<usize> = tree.verif_levels().iter().map(|l| l.len()).collect();
+        // what the manifest lists must be there: live tree first ...
+        for m in tree.verif_levels().iter().flatten() {
+            let p = lsmtk::SST_FILE(&dir, setsum::Setsum::from_digest(m.setsum));
+            if !p.exists() {
+                finding("listed-sst-missing", format!("{} is in the live tree but not in sst/", p.display()));
+            }
+        }
+        let live: Vec<Option<Vec<u8>>> = [b"a".as_slice(), b"b", b"c"].iter().map(|k| tree.get(k).unwrap_or(None)).collect();
+        drop(tree);
+        // ... then through the manifest: reopen and read back
+        match LsmTree::open(options(&dir, &cfg["options"])) {
+            Err(e) => finding("reopen-failed", format!("after the compaction and the ingests returned, reopening fails: {e}")),
+            Ok(t) => {
+                let want: Vec<Option<Vec<u8>>> = vec![
+                    Some(format!("v{}", files - 1).into_bytes()),
+                    if files > first { Some(format!("w{}", files - 1).into_bytes()) } else { None },
+                    Some(format!("c{}", first - 1).into_bytes()),
+                ];
+                for (i, k) in [b"a".as_slice(), b"b", b"c"].iter().enumerate() {
+                    match t.get(k) {
+                        Err(e) => finding("read-error-after-reopen", format!("get({}) failed: {e}", vcore::esc(k))),
+                        Ok(v) => {
+                            if v != want[i] {
+                                finding("acknowledged-ingest-lost", format!("get({}) after reopen = {:?}, expected {:?}", vcore::esc(k), v.map(|x| vcore::esc(&x)), want[i].as_ref().map(|x| vcore::esc(x))));
+                            }
+                            if live[i] != want[i] {
+                                finding("acknowledged-ingest-invisible", format!("get({}) before closing = {:?}, expected {:?}", vcore::esc(k), live[i].as_ref().map(|x| vcore::esc(x)), want[i].as_ref().map(|x| vcore::esc(x))));
+                            }
+                        }
+                    }
+                }
+            }
+        }
+        outcome(&shape);
+    }
+}
+
 /// External files for the tree harness: overlapping single-key files with growing timestamps.
 fn build_external_files(dir: &Path, files: u64) {
     std::fs::create_dir_all(dir).expect("ext dir");
     for i in 0..files {
         let p = dir.join(format!("{i}.sst"));
         let mut b = sst::SstBuilder::new(sst::SstOptions::default(), &p).expect("ext builder");
-        b.put(b"a", 10 + i, format!("v{i}").as_bytes()).expect("ext put");
+        b.put(b"a", 100 + i, format!("v{i}").as_bytes()).expect("ext put");
+        if i < 2 {
+            // the first two files straddle each other in time ([1+i, 100+i]): neither can sink
+            // past the other, only a merge moves them
+            b.put(b"c", 1 + i, format!("c{i}").as_bytes()).expect("ext put");
+        } else {
+            b.put(b"b", 100 + i, format!("w{i}").as_bytes()).expect("ext put");
+        }
         b.seal().expect("ext seal");
     }
 }
@@ -789,6 +885,14 @@ fn configs(prop: &str, thorough: bool) -> Vec<Value> {
                 "options": {"l0-mandatory-compaction-threshold-files": "1"},
                 "threads": [[["compact"], ["compact"]]], "limits": lim()}));
         }
+        "C08" => {
+            // a merging compaction of two level-0 files || one or two ingests
+            for (name, files, steps) in [("merge-vs-ingest", 3u64, 1u64), ("merge-vs-two-ingests", 4, 1), ("two-steps-vs-ingest", 3, 2)] {
+                v.push(json!({"harness": "treemerge", "name": name, "template": [],
+                    "options": {"l0-mandatory-compaction-threshold-files": "2", "l0-write-stall-threshold-files": "12"},
+                    "preloaded": 2, "files": files, "compaction_steps": steps, "limits": lim()}));
+            }
+        }
         "C20" => {
             // L0 at the stall threshold: the flush of the writer's memtable has to wait for a
             // compaction; compaction threads loop for real
@@ -835,6 +939,17 @@ fn run_child(cfg: &Value) -> Value {
             }
             *d = true;
             skipfree::verif::set_fixed_height(1);
+            if cfg["harness"] == "treemerge" {
+                let n = cfg["files"].as_u64().unwrap_or(3);
+                let ext = template.with_extension("ext");
+                build_external_files(&ext, n);
+                let t = LsmTree::open(options(&template, &cfg["options"])).expect("template tree");
+                for i in 0..cfg["preloaded"].as_u64().unwrap_or(2) {
+                    t.ingest(ext.join(format!("{i}.sst"))).expect("template ingest");
+                }
+                drop(t);
+                return;
+            }
             if cfg["harness"] == "treestall" {
                 // (loom types only exist inside a model: the external files are built here too)
                 build_external_files(&template.with_extension("ext"), cfg["files"].as_u64().unwrap_or(3));
@@ -853,6 +968,10 @@ fn run_child(cfg: &Value) -> Value {
     let v = match cfg["harness"].as_str().unwrap() {
         "rw" => explore(cfg, &limits, rw_model(cfg.clone(), template, work)),
         "stall" => explore(cfg, &limits, stall_model(cfg.clone(), template, work)),
+        "treemerge" => {
+            let ext = template.with_extension("ext");
+            explore(cfg, &limits, treemerge_model(cfg.clone(), template, ext, work))
+        }
         "treestall" => {
             let ext = template.with_extension("ext");
             explore(cfg, &limits, treestall_model(cfg.clone(), ext, work))
